@@ -441,6 +441,11 @@ class SchemaValidator:
             # validation will have caught this already
             return []
 
+        if self._ref_has_path(action["object_promise"]):
+            return [
+                f"{self._context(f'{path}.object_promise')}: must reference an object promise, not a path on it: {json.dumps(action['object_promise'])}"
+            ]
+
         object_type_ref = self._object_type_ref_from_action(action)
         if object_type_ref is None:
             # validation will have caught this already
@@ -559,6 +564,12 @@ class SchemaValidator:
                                 operation["default_edges"], key, "object_promise"
                             ):
                                 # ref validation will have caught this already
+                                continue
+
+                            if self._ref_has_path(edge_ref):
+                                errors += [
+                                    f"{self._context(f'{path}.operation.default_edges.{key}')}: must reference an object promise, not a path on it: {json.dumps(edge_ref)}"
+                                ]
                                 continue
 
                             object_promise_edge = self._resolve_global_ref(edge_ref)
@@ -1425,6 +1436,11 @@ class SchemaValidator:
         ):
             # there will already be validation errors for the missing field
             return []
+
+        if self._ref_has_path(field["object_promise"]):
+            return [
+                f"{self._context(path)}.object_promise: must reference an object promise, not a path on it: {json.dumps(field['object_promise'])}"
+            ]
 
         object_promise_ref = self._normalize_ref(field["object_promise"])
         object_promise = self._resolve_global_ref(object_promise_ref)
@@ -2403,6 +2419,17 @@ class SchemaValidator:
                     f"{self._context(path)}: invalid ref type: expected one of {json.dumps(obj_spec['ref_types'])}, got {ref_type} reference"
                 ]
 
+            # parties, object types, checkpoints and thread groups have no attributes to follow
+            if ref_type in [
+                "party",
+                "object_type",
+                "checkpoint",
+                "thread_group",
+            ] and self._ref_has_path(field):
+                return [
+                    f"{self._context(path)}: invalid ref: a {ref_type} reference cannot be followed by a path: {json.dumps(field)}"
+                ]
+
             # TODO: the following line should resolve to a type, not an object.
             # It doesn't make a difference at the moment, but it will.
             referenced_object_type = self._resolve_global_ref(field)
@@ -2416,6 +2443,10 @@ class SchemaValidator:
             return self._validate_expected_value(path, field, obj_spec, parent_obj_spec)
 
         return []
+
+    def _ref_has_path(self, ref):
+        """Is the entity reference followed by an attribute path?"""
+        return len(utils.truncate_schema_id(ref).split(".")) > 1
 
     def _resolve_global_ref(self, ref):
         if ref is None:
@@ -3970,6 +4001,11 @@ class SchemaValidator:
             ):
                 # cannot validate connection
                 continue
+
+            if self._ref_has_path(connection["to_ref"]):
+                errors += [
+                    f"{self._context(f'{path}.connectons[{i}]')}: invalid connection: to_ref must reference an action or checkpoint, not a path on it"
+                ]
 
             # to_ref must be from the imported schema
             if utils.parse_schema_id(connection["to_ref"]) != file_name:
